@@ -126,7 +126,7 @@ def run(repo: Repo, rep: Report, tier: str) -> None:
             continue
         n_sites += _import_obligations(fn, rep)
     rep.count("R5.3:emit_sites_with_runtime_symbols", n_sites)
-    rep.require(n_sites >= 12, f"R5.3: only {n_sites} emit sites mentioning runtime symbols found in the handler (floor 12)")
+    rep.require(n_sites >= 8, f"R5.3: only {n_sites} emit sites mentioning runtime symbols found in the handler (floor 8)")
 
     # ---------------------------------------------------------------- R5.4 text/bytes guard before response.json()
     for mname in ("_write_strategy_based_return", "_write_content_type_conditional_handling"):
@@ -389,9 +389,38 @@ def _stream_classification(repo: Repo, rep: Report) -> None:
                           "non-streaming method that JSON-decodes the body", pr.loc(h.stmt))
 
 
+def _writer_helper_param(fn: Function, c: ast.Call) -> Optional[ast.AST]:
+    """`self._write_x(writer, ..., expr)` where `_write_x` is a method of the same class that writes one of its parameters into a line
+    (`writer.write_line(f"return {value_expr}")`): the argument passed for that parameter is emitted text."""
+    if not (isinstance(c.func, ast.Attribute) and fn.cls is not None and c.func.attr in fn.cls.methods):
+        return None
+    h = fn.cls.methods[c.func.attr]
+    hparams = [p_ for p_ in h.params if p_ not in ("self", "cls")]
+    emitted = set()
+    for wc in calls_in(h.node):
+        if isinstance(wc.func, ast.Attribute) and wc.func.attr == "write_line" and wc.args:
+            for x in ast.walk(wc.args[0]):
+                if isinstance(x, ast.Name) and x.id in hparams:
+                    emitted.add(x.id)
+    emitted -= {p_ for p_ in emitted if p_ in ("writer", "context")}
+    for p_ in hparams:
+        if p_ in emitted:
+            i = hparams.index(p_)
+            if i < len(c.args):
+                return c.args[i]
+            for k in c.keywords:
+                if k.arg == p_:
+                    return k.value
+    return None
+
+
 def _template_text_of_call(fn: Function, c: ast.Call) -> Optional[str]:
     if not (isinstance(c.func, ast.Attribute) and c.func.attr == "write_line" and c.args):
-        return None
+        via = _writer_helper_param(fn, c)
+        if via is None or (isinstance(via, ast.Constant) and via.value is None):
+            return None
+        line = ast.JoinedStr(values=[ast.FormattedValue(value=via, conversion=-1, format_spec=None)])  # the helper writes f"... {param}"
+        c = ast.Call(func=ast.Attribute(value=ast.Name(id="writer", ctx=ast.Load()), attr="write_line", ctx=ast.Load()), args=[line], keywords=[])
     t = template_of(c.args[0], fn.node)
     if t is None:
         return None
